@@ -350,6 +350,198 @@ static void op_ocra(int argc, char** argv)
 	free(suite), free(st);
 }
 
+/* ---- histories on ONE state: hotps / totps / ocras -------------------------------------------
+   outputs are buffered so that a malformed command gives a single "bad-op" */
+static char hbuf[1 << 16];
+static size_t hlen;
+static void hput(const char* s) { if (hlen) hbuf[hlen++] = ' '; strcpy(hbuf + hlen, s); hlen += strlen(s); }
+static void hput_hex(const octet* p, size_t n)
+{
+	char t[2 * 64 + 1];
+	size_t i;
+	static const char d[] = "0123456789abcdef";
+	for (i = 0; i < n; ++i) t[2 * i] = d[p[i] >> 4], t[2 * i + 1] = d[p[i] & 15];
+	t[2 * n] = 0;
+	hput(t);
+}
+/* split "a:b:c" in place; returns the number of fields (max 5) */
+static int fields(char* t, char* f[5])
+{
+	int n = 0;
+	f[n++] = t;
+	for (; *t; ++t) if (*t == ':') { if (n == 5) return 99; *t = 0; f[n++] = t + 1; }
+	return n;
+}
+static int t_arg(const char* s, unsigned long long* t)
+{
+	if (!*s || strlen(s) > 20 || strspn(s, "0123456789") != strlen(s)) return 0;
+	errno = 0;
+	*t = strtoull(s, 0, 10);
+	return errno == 0;
+}
+/* hex field -> NUL-terminated string without inner NULs */
+static char* str_arg(const char* h)
+{
+	size_t n;
+	octet* o;
+	char* r;
+	if (!hex_ok(h)) return 0;
+	o = hex_arg(h, &n);
+	if (memchr(o, 0, n)) { hex_free(o, n); return 0; }
+	r = (char*)malloc(n + 1);
+	memcpy(r, o, n), r[n] = 0;
+	hex_free(o, n);
+	return r;
+}
+
+static void op_hotps(int argc, char** argv)
+{
+	size_t dg, kn, n;
+	octet *k, ctr[8];
+	botp_hotp_st *st, *cp;
+	char otp[16], otp2[16];
+	int i, bad = 0;
+	if (argc < 3 || !dec_ok(argv[1]) || !hex_ok(argv[2])) BAD();
+	dg = (size_t)u_arg(argv[1]);
+	if (dg < 4 || dg > 9) BAD();
+	k = hex_arg(argv[2], &kn);
+	st = (botp_hotp_st*)malloc(botpHOTP_keep());
+	cp = (botp_hotp_st*)malloc(botpHOTP_keep());
+	botpHOTPStart(st, dg, k, kn);
+	memset(st->ctr, 0, 8);
+	hex_free(k, kn);
+	hlen = 0;
+	for (i = 3; i < argc && !bad; ++i)
+	{
+		char* f[5];
+		int nf = fields(argv[i], f);
+		char c = f[0][0];
+		if (f[0][1]) { bad = 1; break; }
+		if (c == 'S' && nf == 2 && hex_ok(f[1]))
+		{
+			octet* x = hex_arg(f[1], &n);
+			if (n != 8) bad = 1; else botpHOTPStepS(st, x);
+			hex_free(x, n);
+		}
+		else if (c == 'R' && nf == 1) botpHOTPStepR(otp, st), hput(otp);
+		else if (c == 'V' && nf == 2)
+		{
+			char* o = str_arg(f[1]);
+			if (!o) bad = 1; else hput(botpHOTPStepV(o, st) ? "1" : "0"), free(o);
+		}
+		else if ((c == 'W' || c == 'N') && nf == 1)
+		{
+			memcpy(cp, st, botpHOTP_keep());
+			botpHOTPStepR(otp2, cp);
+			if (c == 'N') botpHOTPStepR(otp2, cp);
+			hput(botpHOTPStepV(otp2, st) ? "1" : "0");
+		}
+		else if (c == 'G' && nf == 1) botpHOTPStepG(ctr, st), hput_hex(ctr, 8);
+		else bad = 1;
+	}
+	if (bad) printf("bad-op");
+	else botpHOTPStepG(ctr, st), hput_hex(ctr, 8), fputs(hbuf, stdout);
+	free(st), free(cp);
+}
+
+static void op_totps(int argc, char** argv)
+{
+	size_t dg, kn;
+	octet* k;
+	void* st;
+	char otp[16];
+	unsigned long long t;
+	int i, bad = 0;
+	if (argc < 3 || !dec_ok(argv[1]) || !hex_ok(argv[2])) BAD();
+	dg = (size_t)u_arg(argv[1]);
+	if (dg < 4 || dg > 9) BAD();
+	k = hex_arg(argv[2], &kn);
+	st = malloc(botpTOTP_keep());
+	botpTOTPStart(st, dg, k, kn);
+	hex_free(k, kn);
+	hlen = 0;
+	hbuf[0] = 0;
+	for (i = 3; i < argc && !bad; ++i)
+	{
+		char* f[5];
+		int nf = fields(argv[i], f);
+		char c = f[0][0];
+		if (f[0][1] || nf < 2 || !t_arg(f[1], &t)) { bad = 1; break; }
+		if (c == 'R' && nf == 2) botpTOTPStepR(otp, (tm_time_t)t, st), hput(otp);
+		else if (c == 'V' && nf == 3)
+		{
+			char* o = str_arg(f[2]);
+			if (!o) bad = 1; else hput(botpTOTPStepV(o, (tm_time_t)t, st) ? "1" : "0"), free(o);
+		}
+		else if (c == 'W' && nf == 2)
+		{
+			botpTOTPStepR(otp, (tm_time_t)t, st);
+			hput(botpTOTPStepV(otp, (tm_time_t)t, st) ? "1" : "0");
+		}
+		else bad = 1;
+	}
+	if (bad) printf("bad-op"); else fputs(hbuf, stdout);
+	free(st);
+}
+
+static void op_ocras(int argc, char** argv)
+{
+	size_t kn, qn, n1, n2, n3;
+	octet *k, ctr[8];
+	char *suite, otp[16];
+	botp_ocra_st *st, *cp;
+	unsigned long long t;
+	int i, bad = 0;
+	if (argc < 3 || !hex_ok(argv[2])) BAD();
+	suite = str_arg(argv[1]);
+	if (!suite) BAD();
+	k = hex_arg(argv[2], &kn);
+	st = (botp_ocra_st*)malloc(botpOCRA_keep());
+	cp = (botp_ocra_st*)malloc(botpOCRA_keep());
+	if (!botpOCRAStart(st, suite, k, kn)) { printf("bad-format"); goto end; }
+	hlen = 0;
+	for (i = 3; i < argc && !bad; ++i)
+	{
+		char* f[5];
+		int nf = fields(argv[i], f);
+		char c = f[0][0];
+		if (f[0][1]) { bad = 1; break; }
+		if (c == 'G' && nf == 1) { botpOCRAStepG(ctr, st), hput_hex(ctr, 8); continue; }
+		if (c == 'S' && nf == 4 && hex_ok(f[1]) && hex_ok(f[2]) && hex_ok(f[3]))
+		{
+			octet *x = hex_arg(f[1], &n1), *p = hex_arg(f[2], &n2), *s = hex_arg(f[3], &n3);
+			if ((st->ctr_len && n1 != 8) || (st->p_len && n2 != st->p_len) || (st->s_len && n3 != st->s_len)) bad = 1;
+			else botpOCRAStepS(st, x, p, s);
+			hex_free(x, n1), hex_free(p, n2), hex_free(s, n3);
+			continue;
+		}
+		if (!strchr("RVWN", c) || nf < 3 || !hex_ok(f[1]) || !t_arg(f[2], &t)) { bad = 1; break; }
+		{
+			octet* q = hex_arg(f[1], &qn);
+			if (qn < 4 || qn > 2 * st->q_max) bad = 1;
+			else if (c == 'R' && nf == 3) botpOCRAStepR(otp, q, qn, (tm_time_t)t, st), hput(otp);
+			else if (c == 'V' && nf == 4)
+			{
+				char* o = str_arg(f[3]);
+				if (!o) bad = 1; else hput(botpOCRAStepV(o, q, qn, (tm_time_t)t, st) ? "1" : "0"), free(o);
+			}
+			else if ((c == 'W' || c == 'N') && nf == 3)
+			{
+				memcpy(cp, st, botpOCRA_keep());
+				botpOCRAStepR(otp, q, qn, (tm_time_t)t, cp);
+				if (c == 'N') botpOCRAStepR(otp, q, qn, (tm_time_t)t, cp);
+				hput(botpOCRAStepV(otp, q, qn, (tm_time_t)t, st) ? "1" : "0");
+			}
+			else bad = 1;
+			hex_free(q, qn);
+		}
+	}
+	if (bad) printf("bad-op");
+	else botpOCRAStepG(ctr, st), hput_hex(ctr, 8), fputs(hbuf, stdout);
+end:
+	hex_free(k, kn), free(suite), free(st), free(cp);
+}
+
 static void op_ctrnext(int argc, char** argv)
 {
 	size_t n;
@@ -379,10 +571,6 @@ static void op_dt(int argc, char** argv)
 
 static void handle(int argc, char** argv)
 {
-	static int init = 0;
-	/* line-buffered output: when an op aborts (sanitizer), every earlier line is complete in the pipe,
-	   so the crash is attributed to the right op */
-	if (!init) { setvbuf(stdout, 0, _IOLBF, 1 << 16); init = 1; }
 	if (argc < 1) { printf("bad-op"); return; }
 	if (handle_belt(argc, argv)) return;
 	if (!strcmp(argv[0], "bashf")) op_bashf(argc, argv);
@@ -395,6 +583,9 @@ static void handle(int argc, char** argv)
 	else if (!strcmp(argv[0], "hotpv")) op_hotpv(argc, argv);
 	else if (!strcmp(argv[0], "totp")) op_totp(argc, argv);
 	else if (!strcmp(argv[0], "ocra")) op_ocra(argc, argv);
+	else if (!strcmp(argv[0], "hotps")) op_hotps(argc, argv);
+	else if (!strcmp(argv[0], "totps")) op_totps(argc, argv);
+	else if (!strcmp(argv[0], "ocras")) op_ocras(argc, argv);
 	else if (!strcmp(argv[0], "ctrnext")) op_ctrnext(argc, argv);
 	else if (!strcmp(argv[0], "dt")) op_dt(argc, argv);
 	else printf("bad-op");
